@@ -221,7 +221,7 @@ class InitOwnership(FunctionContract):
             calls['fsic.core.containers.VectorContainer.__init__'] = parent_init
         interp.registry.set_calls(calls)
         if self.which == 'linker':
-            return Call([None], {}, self_obj=obj, entry=e)
+            return Call([], {}, self_obj=obj, entry=e)
         return Call([[1, 2, 3]], {}, self_obj=obj, entry=e)
 
     def post(self, interp, scenario, call, out):
@@ -240,6 +240,14 @@ class InitOwnership(FunctionContract):
             ctx.prove(z3.BoolVal(v is not None and v == c), f'instance_{attr}_equals_the_class_{cattr}', 'ensures')
             shared = any(v is getattr(k, n, None) for k in cls.__mro__ for n in ('ENDOGENOUS', 'EXOGENOUS', 'NAMES', 'CHECK', 'PREFERRED_NAMES', 'ALIASES'))
             ctx.prove(z3.BoolVal(not shared), f'instance_{attr}_is_a_copy_not_the_class_level_object', 'own')
+        if e['which'] in ('model', 'linker'):
+            ctx.prove(z3.BoolVal(f.get('endogenous') is not f.get('check')), 'instance_endogenous_and_check_are_distinct_lists', 'own', props=('C11', 'C04'))
+        if e['which'] == 'linker':
+            import fsic.core.linkers as _lk
+            init = _lk.BaseLinker.__init__
+            defaults = list(init.__defaults__ or ()) + list((init.__kwdefaults__ or {}).values())
+            ctx.prove(z3.BoolVal(not any(f.get('submodels') is d for d in defaults if isinstance(d, (dict, list)))),
+                      'instance_submodels_is_not_a_shared_default_argument', 'own')
         if e['which'] == 'alias':
             al = f.get('aliases')
             ctx.prove(z3.BoolVal(al == {'GDP': 'Y', 'out': 'Y'}), 'alias_chains_are_resolved_to_the_underlying_variable', 'ensures', note=str(al))
